@@ -50,6 +50,9 @@ def match_d11(case, kind, detail):
     paths = d11_paths(case)
     if not paths:
         return False
+    if kind == 'idempotence':
+        # the first run leaves the stale twin behind, the second run repairs it (and rewrites the Manifests above it)
+        return True
     if kind == 'exactness':
         return all(problem_path(p) in paths for p in detail)
     if kind == 'fresh-verify':
@@ -97,6 +100,8 @@ def alias_zones(case):
 
 def match_d20(case, kind, detail):
     zones = alias_zones(case)
+    if zones and kind == 'idempotence':
+        return True        # the two objects of the one file overwrite each other again on every run
     if not zones or kind != 'fresh-verify':
         return False
 
